@@ -10,11 +10,22 @@ import time
 from . import main as M
 
 VGEN = os.path.join(M.TARGET, "debug", "vgen")
-def ms_target(tier):
-    # one target directory per tier: both tiers build a binary called msbin, and cargo does not
-    # re-link (re-uplift) a binary it considers fresh, so a shared directory would let one tier run
-    # the other tier's binary
-    return os.path.join(M.TARGET, "ms-" + tier)
+def ms_target(tier, batch=0):
+    # one target directory per tier (and per thorough batch): all of them build a binary called
+    # msbin, and cargo does not re-link (re-uplift) a binary it considers fresh, so a shared
+    # directory would let one corpus run another corpus' binary
+    return os.path.join(M.TARGET, "ms-" + tier + ("-b%d" % batch if batch else ""))
+
+
+def n_batches(tier):
+    """The thorough tier runs several corpora: batch b holds another window of the program
+    generators (other programs, other rule shapes), compiled by the compiler of the current tree."""
+    if tier != "thorough":
+        return 1
+    try:
+        return max(1, int(os.environ.get("VERIF_BATCHES", "6")))
+    except ValueError:
+        return 6
 GEN_SEED = 1  # the corpus is fixed by the generator seed, the programs are recompiled on every run
 
 
@@ -23,37 +34,42 @@ def setup():
     build_corpus("quick")
 
 
-def corpus_dir(tier):
-    return os.path.join(M.WORK, "corpus-%s" % tier)
+def corpus_dir(tier, batch=0):
+    return os.path.join(M.WORK, "corpus-%s%s" % (tier, "-b%d" % batch if batch else ""))
 
 
-def build_corpus(tier, first=0):
+def build_corpus(tier, batch=0):
     """Regenerates the corpus with the compiler of the current tree and rebuilds the batch binary.
     A module that rustc rejects is dropped (DIAGNOSTIC C09) and the build is retried."""
     M.cargo_build(["vgen"], "build-vgen.log")
-    out = corpus_dir(tier)
+    out = corpus_dir(tier, batch)
     count = 40 if tier == "quick" else 120
+    first = batch * 1000
     exclude = []
     for attempt in range(6):
         cmd = [VGEN, "corpus", "--seed", str(GEN_SEED), "--count", str(count), "--first", str(first), "--out", out,
                "--exclude", ",".join(exclude)]
-        proc = subprocess.run(cmd, capture_output=True, text=True, env=M.cargo_env())
+        venv = M.cargo_env()
+        if batch:
+            venv["VGEN_MODEL_FIRST"] = str(batch * 100)
+            venv["VGEN_SKIP_REPO"] = "1"
+        proc = subprocess.run(cmd, capture_output=True, text=True, env=venv)
         if proc.returncode != 0:
             raise M.HarnessError("vgen failed: %s %s" % (proc.stdout[-1500:], proc.stderr[-1500:]))
         env = M.cargo_env()
-        env["CARGO_TARGET_DIR"] = ms_target(tier)
+        env["CARGO_TARGET_DIR"] = ms_target(tier, batch)
         t0 = time.time()
-        logp = os.path.join(M.WORK, "build-batch-%s.log" % tier)
+        logp = os.path.join(M.WORK, "build-batch-%s%s.log" % (tier, "-b%d" % batch if batch else ""))
         with open(logp, "w") as f:
             rc = subprocess.call(["cargo", "build", "--offline", "-p", "msbin"], cwd=out, env=env, stdout=f, stderr=subprocess.STDOUT)
         if rc == 0:
-            M.log("[build] corpus %s (%s) ok in %.1fs" % (tier, proc.stdout.strip(), time.time() - t0))
+            M.log("[build] corpus %s batch %d (%s) ok in %.1fs" % (tier, batch, proc.stdout.strip(), time.time() - t0))
             diag = os.path.join(out, "diagnostics.txt")
             if os.path.exists(diag):
                 for line in open(diag):
                     if line.startswith("DIAGNOSTIC"):
                         M.log(line.strip())
-            return os.path.join(ms_target(tier), "debug", "msbin"), exclude
+            return os.path.join(ms_target(tier, batch), "debug", "msbin"), exclude
         text = open(logp, errors="replace").read()
         bad = sorted(set(re.findall(r"gen/(p[gmn][a-z]+|rt_[a-z_]+)\.(?:eql|driver)\.rs", text)))
         if not bad:
@@ -206,13 +222,27 @@ def shard_env(i, prop):
 
 def run(prop, tier, seed, spec, t0):
     results, outdir, binary, extra_cov, extra_viol = run_shards(prop, tier, seed)
-    return M.finish(prop, tier, seed, spec, results, outdir, binary, t0, extra_cov=extra_cov, extra_violations=extra_viol)
+    fp_dirs = []
+    batches = [{"batch": 0, "programs": extra_cov.get("corpus", {}).get("programs")}]
+    for b in range(1, n_batches(tier)):
+        # a further corpus: other programs, other history seeds; every violation remembers the
+        # binary and the corpus it was found with, so that its replay runs against the same programs
+        r2, out2, _bin2, cov2, viol2 = run_shards(prop, tier, seed * 1000003 + b, batch=b)
+        results += r2
+        extra_viol += viol2
+        fp_dirs.append(out2)
+        batches.append({"batch": b, "programs": cov2.get("corpus", {}).get("programs"),
+                        "dropped_uncompilable": cov2.get("corpus", {}).get("dropped_uncompilable")})
+    if len(batches) > 1:
+        extra_cov["corpus_batches"] = batches
+    return M.finish(prop, tier, seed, spec, results, outdir, binary, t0, extra_cov=extra_cov, extra_violations=extra_viol,
+                    extra_fp_dirs=fp_dirs)
 
 
-def run_shards(prop, tier, seed, suffix="", nshards=None, extra_args=()):
+def run_shards(prop, tier, seed, suffix="", nshards=None, extra_args=(), batch=0):
     nshards = nshards or M.NSHARDS
-    binary, excluded = build_corpus(tier)
-    outdir = os.path.join(M.WORK, "%s-%s%s" % (prop, tier, suffix))
+    binary, excluded = build_corpus(tier, batch)
+    outdir = os.path.join(M.WORK, "%s-%s%s%s" % (prop, tier, "-b%d" % batch if batch else "", suffix))
     if os.path.isdir(outdir):
         shutil.rmtree(outdir)
     os.makedirs(outdir)
@@ -253,6 +283,10 @@ def run_shards(prop, tier, seed, suffix="", nshards=None, extra_args=()):
                     pass
             continue
         results.append(json.load(open(path)))
+    for r in results:
+        for v in r.get("violations", []):
+            v["binary"] = binary
+            v["corpus"] = {"tier": tier, "batch": batch}
     if bad:
         # a worker that died (allocation failure, time limit) is a harness error -- unless other
         # workers hold replay-confirmable violations, which are reported (each is re-executed in a
@@ -262,7 +296,7 @@ def run_shards(prop, tier, seed, suffix="", nshards=None, extra_args=()):
         for b in bad:
             M.log("[warn] " + b.splitlines()[0] + " (violations from the other workers are reported)")
     rejected = []
-    diag = os.path.join(corpus_dir(tier), "diagnostics.txt")
+    diag = os.path.join(corpus_dir(tier, batch), "diagnostics.txt")
     if os.path.exists(diag):
         rejected = [l.strip() for l in open(diag) if l.startswith("rejected")]
     extra_cov = {"corpus": {"generator_seed": GEN_SEED, "programs": results[0].get("counters", {}).get("programs") if results else None,
@@ -304,6 +338,14 @@ def replay(path, v):
     # the replay needs the corpus that contains the program: try both tiers
     case = v.get("case", {})
     name = case.get("program")
+    where = v.get("corpus")
+    if where:
+        binary, _ = build_corpus(where.get("tier", "quick"), int(where.get("batch", 0)))
+        proc = subprocess.run([binary, "replay", path], capture_output=True, text=True)
+        lines = proc.stdout.strip().splitlines()
+        sys.stdout.write((lines[-1] if lines else "") + "\n")
+        sys.stderr.write(proc.stderr)
+        return proc.returncode
     for tier in ("quick", "thorough"):
         src = os.path.join(corpus_dir(tier), "gen", "%s.eql" % name)
         if tier == "quick" or os.path.exists(src):
